@@ -2,6 +2,7 @@
 Helper lemmas for C11: the generators.
 -/
 import DeapModel.Lemmas.C11Span
+import DeapModel.Lemmas.C11Tape
 
 namespace GpTree
 
@@ -12,24 +13,6 @@ structure PsetOK (ps : Pset) : Prop where
   trans : ∀ a b c, ps.sub a b = true → ps.sub b c = true → ps.sub a c = true
   prims_ok : ∀ τ p, p ∈ ps.prims τ → ps.sub p.ret τ = true ∧ p.args ≠ []
   terms_ok : ∀ τ p, p ∈ ps.terms τ → ps.sub p.ret τ = true ∧ p.args = []
-
-theorem popChoice_mem {α : Type} {seq : List α} {tp tp' : Tape} {x : α}
-    (h : popChoice seq tp = some (x, tp')) : x ∈ seq := by
-  cases tp with
-  | nil => simp [popChoice] at h
-  | cons d tp =>
-    cases d <;> simp [popChoice] at h
-    obtain ⟨_, a, ha, rfl, _⟩ := h
-    exact List.mem_of_getElem? ha
-
-theorem instantiate_spec {p p' : Prim} {tp tp' : Tape} (h : instantiate p tp = some (p', tp')) :
-    p'.ret = p.ret ∧ p'.args = p.args ∧ p'.kind = p.kind ∧ p'.name = p.name := by
-  unfold instantiate at h
-  split at h
-  · split at h
-    · simp at h; obtain ⟨rfl, _⟩ := h; simp
-    · simp at h
-  · simp at h; obtain ⟨rfl, _⟩ := h; simp
 
 /-- a forest matching a generator stack: tree `k` is well typed for the type of stack entry `k`
 and satisfies the depth property `P` at the entry's depth -/
@@ -73,11 +56,11 @@ theorem forestOK_wtF {sub P} : ∀ (st : List (Nat × Nat)) (ts : List Tree),
 /-- The invariant of the `generate` loop, for any depth property `P` that holds for a terminal
 placed where the condition fired and is inherited by a primitive node placed where it did not. -/
 theorem genLoop_inv {mode : GenMode} {ps : Pset} {mn h : Nat} (ok : PsetOK ps) (P : Nat → Tree → Prop)
-    (hleaf : ∀ d tp tp' (term : Prim), condition mode ps mn h d tp = some (true, tp') → P d (.node term []))
-    (hnode : ∀ d tp tp' (p : Prim) (c : Tree) (cs : List Tree), condition mode ps mn h d tp = some (false, tp') →
+    (hleaf : ∀ d tp tp' (term : Prim), condition mode ps mn h d tp = .ok (true, tp') → P d (.node term []))
+    (hnode : ∀ d tp tp' (p : Prim) (c : Tree) (cs : List Tree), condition mode ps mn h d tp = .ok (false, tp') →
       (∀ x ∈ c :: cs, P (d + 1) x) → P d (.node p (c :: cs))) :
     ∀ (fuel : Nat) (st : List (Nat × Nat)) (tp : Tape) (out : List Prim) (tp' : Tape),
-      genLoop mode ps mn h fuel st tp = some (out, tp') →
+      genLoop mode ps mn h fuel st tp = .ok (out, tp') →
       ∃ ts, flattenF ts = out ∧ forestOK ps.sub P st ts
   | _, [], tp, out, tp', hg => by
     cases ‹Nat› <;> (simp [genLoop] at hg; obtain ⟨rfl, _⟩ := hg; exact ⟨[], by simp [flattenF], by simp [forestOK]⟩)
